@@ -263,6 +263,262 @@ def sort_before_layout(F, S):
     return out
 
 
+def element_record(F, mrec):
+    """Repo record that is the element type of container type `mrec` (through std::array / nested vector), or None."""
+    t = mrec or ""
+    while True:
+        t = t.strip()
+        for pre in ("std::vector<", "std::array<"):
+            if t.startswith(pre) and t.endswith(">"):
+                inner = t[len(pre):-1]
+                if pre == "std::array<":
+                    inner = inner.rsplit(",", 1)[0]
+                t = inner
+                break
+        else:
+            break
+    return t if is_repo_record(F, t) else None
+
+
+def value_initialised_elements(F):
+    """Parsers size their containers with resize(n) / vector<T>(n) and then fill the elements field by field, some fields only
+    conditionally: what the fill skips is whatever value-initialisation `T()` left there. For a class without a user-provided
+    default constructor that is zero; a user-provided default constructor must itself define every leaf."""
+    out = []
+    seen = {}
+    for fn in sorted(F.functions.values(), key=lambda f: f.key):
+        if not fn.cfg or fn.d.get("implicit") or fn.key in F.fixture_functions:
+            continue
+        for nd in fn.nodes:
+            rec = None
+            if nd["k"] == "CXXMemberCallExpr" and nd.get("fname") == "resize" and len(nd.get("args", [])) == 1:
+                rec = element_record(F, nd.get("mrec"))
+            elif nd["k"] in CTORS and (nd.get("ct") or "").startswith("std::vector<") and len(nd.get("args", [])) == 1 \
+                    and fn.n(fn.strip(nd["args"][0])).get("iw"):
+                rec = element_record(F, nd.get("ct"))
+            if rec:
+                seen.setdefault(rec, []).append((fn, nd))
+    for rec, sites in sorted(seen.items()):
+        fn, nd = sites[0]
+        r = F.record(rec)
+        inst = "%s#value-initialised-element" % rec
+        req = "elements of %s created by resize(n)/vector(n) start fully defined (zero-initialised, or set by the default constructor)" % rec.split("::")[-1]
+        if not r.get("has_user_provided_default_ctor"):
+            out.append(ok("R-INIT", inst, fn.loc(nd["id"]), fn.qn, req, "no user-provided default constructor: value-initialisation zero-initialises every member", nontrivial=False))
+            continue
+        dc = [c for c in F.functions.values() if c.cls == rec and c.d.get("ctor") and c.d.get("default_ctor") and not c.d.get("implicit")]
+        cov = ctor_cover(F, dc[0]) if dc else set()
+        missing = set(leaves(F, rec)) - cov
+        if missing:
+            # sites whose elements are overwritten wholesale by a raw container read straight after do not depend on T()
+            left = []
+            for (f2, n2) in sites:
+                obj = f2.term(n2["obj"]) if "obj" in n2 else None
+                filled = obj is not None and any(
+                    c["k"] in CALLS and c.get("fname") in ("Read", "ReadImplementation") and c["id"] > n2["id"] and c.get("args")
+                    and f2.term(c["args"][0]) in (obj, ("call", "std::vector::data", obj, ()), ("data", obj)) for c in f2.nodes)
+                if not filled:
+                    left.append((f2, n2))
+            if not left:
+                out.append(ok("R-INIT", inst, fn.loc(nd["id"]), fn.qn, req, "every sized container of this type is overwritten wholesale by a raw read"))
+                continue
+            fn, nd = left[0]
+        if not missing:
+            out.append(ok("R-INIT", inst, fn.loc(nd["id"]), fn.qn, req, "the user-provided default constructor initialises every leaf"))
+        else:
+            out.append(bad("R-INIT", inst, fn.loc(nd["id"]), fn.qn, req,
+                           "the user-provided default constructor of %s leaves undefined: %s (value-initialisation no longer zeroes them)" % (rec.split("::")[-1], fmt_paths(missing))))
+    return out
+
+
+def field_definitions(F, rec):
+    """{field: value term} for fields of the scratch structure `rec` that exactly one plain store (outside any loop) defines,
+    in the functions of the class it belongs to. The value is re-rooted at a neutral object term ("obj", rec)."""
+    owner = rec.rsplit("::", 1)[0]
+    stores = {}
+    for fn in F.functions.values():
+        if not fn.cfg or not (fn.cls or "").startswith(owner):
+            continue
+        roots = {("var", p["n"], p["d"]) for p in fn.params if p.get("record") == rec or (p.get("rec") == rec)}
+        for nd in fn.nodes:
+            if nd["k"] == "DeclStmt":
+                for d in nd.get("decls", []):
+                    if d.get("rec") == rec:
+                        roots.add(("var", d["n"], d["d"]))
+        if not roots:
+            continue
+        loops = [fn.subtree(l["id"]) for l in fn.nodes if l["k"] in ("ForStmt", "WhileStmt", "DoStmt", "CXXForRangeStmt")]
+        for nd in fn.nodes:
+            if not is_store(nd):
+                continue
+            ks = fn.kids(nd["id"])
+            l = fn.term(ks[0])
+            if l[0] == "mem" and l[1] in roots:
+                plain = nd["k"] == "BinaryOperator" and nd.get("op") == "=" and not any(nd["id"] in lp for lp in loops)
+                stores.setdefault(l[2], []).append((fn, nd, l[1], plain))
+    out = {}
+    for f, sts in stores.items():
+        plains = [x for x in sts if x[3]]
+        if len(plains) != 1:
+            continue
+        # an accumulator (`= 0` then `+=` in a loop) has no closed definition
+        if len(sts) != 1:
+            continue
+        fn, nd, root, _ = plains[0]
+        out[f] = reroot(fn.term(fn.kids(nd["id"])[1]), root, ("obj", rec))
+    return out
+
+
+def reroot(t, old, new):
+    if t == old:
+        return new
+    if isinstance(t, tuple):
+        return tuple(reroot(x, old, new) if isinstance(x, tuple) else x for x in t)
+    return t
+
+
+def upper_linear(t):
+    """A term that is >= t over the unsigned integers and friendlier to linear normalisation: x & m <= x."""
+    if isinstance(t, tuple) and t and t[0] == "op" and t[1] == "&":
+        if t[3][0] in ("const", "un") or (t[3][0] == "op" and t[3][1] == "~"):
+            return upper_linear(t[2])
+    if isinstance(t, tuple) and t and t[0] == "op" and t[1] == "+":
+        return ("op", "+", upper_linear(t[2]), upper_linear(t[3]))
+    if isinstance(t, tuple) and t and t[0] == "op" and t[1] == "-":
+        return ("op", "-", upper_linear(t[2]), t[3])          # the subtrahend is kept exact
+    return t
+
+
+def raw_write_extents(F, S):
+    """Every Write(pointer, n) on a serialisation path forwards only bytes of the object the pointer addresses:
+    n <= extent(object). Bytes beyond it are whatever the heap or the stack holds there."""
+    from ..rules_stream import linear
+    from ..prove import upper_const
+    out = []
+    n_sites = 0
+    seen = set()
+    for name, (wf, ws, roots) in sorted(writers(F).items()):
+        tr = Tracer(F, roots)
+        tr.trace(wf, ws)
+        for (fn, c, toks) in tr.prim_sites:
+            a = c.get("args", [])
+            if len(a) != 2 or not (c.get("params") or [{}])[0].get("ptr") or (fn.key, c["id"]) in seen:
+                continue
+            seen.add((fn.key, c["id"]))
+            n_sites += 1
+            pt = fn.term(a[0])
+            nt = fn.term(a[1])
+            inst = "%s:%s#extent:%s,%s" % (name, fn.name, fmt_term(pt), fmt_term(nt))
+            req = "the byte count %s does not exceed the extent of %s" % (fmt_term(nt), fmt_term(pt))
+            site = fn.loc(c["id"])
+            ext = None
+            what = ""
+            pn = fn.n(fn.strip(a[0]))
+            if pt[0] == "un" and pt[1] == "&" and pt[2][0] == "var":
+                nd, d = var_decl(fn, pt[2])
+                sz = (d or {}).get("size_bits") or ((d or {}).get("iw"))
+                if sz:
+                    ext, what = ("const", sz // 8), "sizeof(%s) = %d" % (pt[2][1], sz // 8)
+            elif pt[0] == "str" or pn.get("k") == "StringLiteral":
+                ln = pn.get("len")
+                if ln is None and pt[0] == "str":
+                    ln = len(pt[1])
+                if ln is not None:
+                    ext, what = ("const", ln + 1), "string literal of %d bytes with its terminator" % (ln + 1)
+            elif pt[0] == "call" and pt[1].split("::")[-1] in ("c_str", "data") and pt[2] is not None:
+                objn = fn.n(fn.strip(fn.n(fn.strip(a[0]))["obj"])) if "obj" in fn.n(fn.strip(a[0])) else {}
+                mrec = fn.n(fn.strip(a[0])).get("mrec") or ""
+                if mrec.startswith("std::basic_string"):
+                    ext, what = ("op", "+", ("size", pt[2]), ("const", 1)), "size() + 1 (terminated string storage)"
+                elif mrec.startswith("std::vector<"):
+                    er = element_record(F, mrec)
+                    es = (F.record(er)["size_bits"] // 8) if er else None
+                    if es:
+                        ext, what = ("op", "*", ("size", pt[2]), ("const", es)), "size() * %d" % es
+            elif pt[0] == "un" and pt[1] == "&" and pt[2][0] == "idx":
+                out.append(ok("R-COPYEXT", inst, site, fn.qn, req, "row source inside the pixel vector: shape decided under C08 (WritePixels rows)", nontrivial=False))
+                continue
+            if ext is None:
+                raise AnalysisBroken("raw write at %s: the extent of %s is not modelled" % (site, fmt_term(pt)))
+            # substitute closed definitions of scratch-structure fields (VolFile::CreateVolumeInfo)
+            def subst(t, depth=0):
+                if isinstance(t, tuple) and t and t[0] == "mem" and t[1][0] == "var" and depth < 4:
+                    nd, d = var_decl(fn, t[1])
+                    rec = (d or {}).get("rec") or (d or {}).get("record")
+                    if rec and is_repo_record(F, rec):
+                        defs = field_definitions(F, rec)
+                        if t[2] in defs:
+                            return subst(reroot(defs[t[2]], ("obj", rec), t[1]), depth + 1)
+                    return t
+                if isinstance(t, tuple):
+                    return tuple(subst(x, depth) if isinstance(x, tuple) else x for x in t)
+                return t
+            n2 = subst(nt)
+            e2 = subst(ext)
+            good = None
+            if n2 == e2 or nt == ext:
+                good = "count is exactly the extent (%s)" % what
+            if good is None:
+                uc = upper_const(set(), n2)
+                if uc is not None and e2[0] == "const" and uc <= e2[1]:
+                    good = "count <= %d <= %s" % (uc, what)
+            if good is None:
+                dn, cn = linear(upper_linear(n2))
+                de, ce = linear(e2)
+                if dn == de and cn <= ce:
+                    good = "linear bound: %s <= %s after substituting the fields' definitions and x & m <= x" % (fmt_term(n2), fmt_term(e2))
+            if good is None and e2[0] == "op" and e2[1] == "*" and n2[0] == "op" and n2[1] == "*":
+                # indexTableLength = fileCount() * sizeof(IndexEntry) against indexEntries.size() * sizeof(IndexEntry)
+                cnt = [x for x in (n2[2], n2[3]) if x[0] != "const"]
+                k = [x for x in (n2[2], n2[3]) if x[0] == "const"]
+                if len(cnt) == 1 and len(k) == 1 and k[0] == e2[3] and e2[2][0] == "size":
+                    if one_push_per_iteration(F, e2[2][1], cnt[0]):
+                        good = "the container receives exactly one push_back per iteration of the loop that runs to %s" % fmt_term(cnt[0])
+            if good:
+                out.append(ok("R-COPYEXT", inst, site, fn.qn, req, good))
+            else:
+                out.append(bad("R-COPYEXT", inst, site, fn.qn, req, "cannot bound %s by the extent %s (%s)" % (fmt_term(n2), fmt_term(e2), what)))
+    return out, n_sites
+
+
+def one_push_per_iteration(F, container, count):
+    """`container` (a field of the scratch structure) is only ever grown by one unconditional push_back per iteration of a
+    loop `for (i = 0; i < count; ++i)`, in the function that fills the structure."""
+    if container[0] != "mem":
+        return False
+    field = container[2]
+    hits = []
+    for fn in F.functions.values():
+        if not fn.cfg or fn.d.get("implicit"):
+            continue
+        for nd in fn.nodes:
+            if nd["k"] == "CXXMemberCallExpr" and nd.get("fname") in ("push_back", "emplace_back", "resize", "clear", "erase", "pop_back", "insert", "assign") and "obj" in nd:
+                o = fn.term(nd["obj"])
+                if o[0] == "mem" and o[2] == field and o[1][0] == "var":
+                    vnd, d = var_decl(fn, o[1])
+                    if (d or {}).get("rec") == (var_rec_of(F, container) or (d or {}).get("rec")):
+                        hits.append((fn, nd))
+    if len(hits) != 1 or hits[0][1]["fname"] != "push_back":
+        return False
+    fn, nd = hits[0]
+    loops = [l for l in fn.nodes if l["k"] == "ForStmt" and nd["id"] in fn.subtree(l["body"])]
+    if len(loops) != 1:
+        return False
+    lp = loops[0]
+    # unconditional: the push_back statement is a direct child of the loop body
+    body = fn.n(lp["body"])
+    direct = any(nd["id"] in fn.subtree(k) and fn.n(k)["k"] not in ("IfStmt", "ForStmt", "WhileStmt", "SwitchStmt", "DoStmt") for k in fn.kids(body["id"]))
+    d0 = fn.n(lp["init"])["decls"][0]
+    cond = fn.term(lp["cond"])
+    cnt_name = count[1].split("::")[-1] if count[0] == "call" else None
+    bound_ok = cond[0] == "op" and cond[1] == "<" and cond[2] == ("var", d0["n"], d0["d"]) and cond[3][0] == "call" and cond[3][1].split("::")[-1] == cnt_name
+    return bool(direct and fn.term(d0["init"]) == ("const", 0) and bound_ok)
+
+
+def var_rec_of(F, t):
+    return None
+
+
 def check(F, run, tier):
     S = Summaries(F)
     run.declined = DECLINED
@@ -311,6 +567,12 @@ def check(F, run, tier):
     run.add([o for o in r_layout(F, records=list(sp["records"])) if o.rule == "R-NOPAD"])
     from . import c04
     run.add(c04.window_initialised(F, S))
+    o = value_initialised_elements(F)
+    run.add(o)
+    run.floor("value-initialised-elements", len(o), 10)
+    o, k = raw_write_extents(F, S)
+    run.add(o)
+    run.floor("raw-write-extents", k, 5)
     run.add(zero_filled_names(F, S))
     run.add(vol_index_entries(F, S))
     run.add(sort_before_layout(F, S))
